@@ -114,7 +114,10 @@ class ProofUnit(Unit):
             label = r.get("label", "")
             try:
                 rep = V.verify(r["contract"], r.get("callees"), r.get("spec_functions"), r.get("options"))
-            except (V.BindingError, Unsupported) as e:
+            except Exception as e:
+                if not isinstance(e, (V.BindingError, Unsupported)):
+                    import traceback as _tb
+                    e = Unsupported("engine failure on the current source: %r at %s" % (e, _tb.format_exc().strip().splitlines()[-3:]))
                 # the contract cannot be bound to / the engine cannot follow the current source: undecided for the deductive part;
                 # the native oracle below still runs (bounded), so a real violation is not hidden behind the tool limit
                 results.append(Result(self.uid + "/bind" + (" [%s]" % label if label else ""), "proof", UNDECIDED, backend="ast", detail="%s: %s" % (type(e).__name__, e), function=r["contract"].qualname))
